@@ -1762,9 +1762,13 @@ def subset_to_blocks(
     # two cohorts can normalize to the same index (product of blocks) on an nD block grid:
     # the reindexer must be part of the name or one subset silently overwrites the other
     name = "groupby-cohort-" + tokenize(array, index, reindexer)
-    new_keys = array._key_array[index]
 
     squeezed = tuple(np.squeeze(i) if isinstance(i, np.ndarray) else i for i in index)
+    # index one axis at a time: with index arrays on two axes separated by a slice,
+    # ``_key_array[index]`` moves the indexed axes to the front and the blocks end up at the wrong positions
+    new_keys = array._key_array
+    for ax, k in enumerate(squeezed):
+        new_keys = new_keys[(slice(None),) * ax + (k,)]
     chunks = tuple(tuple(c[i].tolist()) for c, i in zip(chunks_as_array, squeezed))
 
     keys = itertools.product(*(range(len(c)) for c in chunks))
